@@ -11,4 +11,5 @@ CONSTANTS
   MaxMsgs = 3
   Depth = 5
   ProbesLast = FALSE
+  Extras = {}
 INVARIANT Emit
